@@ -711,3 +711,31 @@ Definition rc_accepts (wn : N -> N -> N -> N -> N) (c : rcase) (b : block) : res
 
 Definition check_rcases (wn : N -> N -> N -> N -> N) (l : list rcase) : bool :=
   forallb (fun c => eqb_llN (run_rcase wn c) (rc_expected c)) l.
+
+(* ---------------------------------------------------------------- perturbed blocks
+   A block accepted in a round, with ONE header field changed / a transaction dropped, altered or
+   doubled, re-signed by the producer, offered to a third node that holds the chain up to the
+   parent: [vc_cv] = generate_consensus_values of that node on the perturbed block.  The model's
+   node_accepts is evaluated on the same block. *)
+Record vcase := mkVC {
+  vc_view : chainview;
+  vc_block : block;
+  vc_cv : cvrec;
+  vc_valid : list (N * bool);
+  vc_gt_ok : list (N * bool);
+  vc_mroot : list (list N * N);
+  vc_expected : N;
+}.
+
+Definition run_vcase (wn : N -> N -> N -> N -> N) (c : vcase) : N :=
+  obs_bool
+    (node_accepts unit (fun _ => vc_view c) (fun _ _ _ => vc_cv c)
+                  (fun _ _ t => lookup_b (vc_valid c) (t_id t))
+                  (fun _ t => lookup_b (vc_gt_ok c) (t_id t))
+                  wn (fun _ _ _ => true) (lookup_l (vc_mroot c)) true rc_node (vc_block c)).
+
+Definition check_vcases (wn : N -> N -> N -> N -> N) (l : list vcase) : bool :=
+  forallb (fun c => run_vcase wn c =? vc_expected c) l.
+
+Definition check_scenario (wn : N -> N -> N -> N -> N) (c : list rcase * list vcase) : bool :=
+  check_rcases wn (fst c) && check_vcases wn (snd c).
